@@ -170,8 +170,9 @@ class ItemList:
                 and source._numbers is not None
             ):
                 # the copied numbers index the source's vocabulary, not the new one
-                self._ids = source.ids()
-                del self._numbers
+                if item_ids is None and "item_id" not in fields:
+                    self._ids = source.ids()
+                self.__dict__.pop("_numbers", None)
             self._vocab = vocabulary
 
         # handle aliases for item ID/number columns
@@ -209,7 +210,7 @@ class ItemList:
             self._len = len(item_ids)
             # clear numbers if we got them from the source
             if source is not None and source._numbers is not None:
-                del self._numbers
+                self.__dict__.pop("_numbers", None)
 
         if item_nums is not None:
             if not len(item_nums):  # type: ignore
@@ -223,9 +224,13 @@ class ItemList:
             self._numbers = MTArray(item_nums)
             check_1d(self._numbers, getattr(self, "_len", None), label="item_nums")
             self._len = self._numbers.shape[0]
-            # clear IDs if we got them from the source
-            if source is not None and source._ids is not None:
+            # clear IDs if we got them from the source (not the ones just supplied)
+            if item_ids is None and source is not None and source._ids is not None:
                 del self._ids
+
+        if isinstance(source, ItemList) and self._len != source._len:
+            # cached ranks describe a list of another length
+            self.__dict__.pop("_ranks", None)
 
         if scores is False:  # check 'is False' to distinguish from None
             scores = None
